@@ -226,6 +226,8 @@ static int updateLevelCorrection(KSI_Signature *sig, KSI_uint64_t rootLevel,
 	KSI_LIST(KSI_TLV) *tlvList = NULL;
 	size_t i;
 	KSI_AggregationHashChain *aggrFromTlv = NULL;
+	KSI_AggregationHashChain *aggrCopy = NULL;
+	KSI_TLV *copyTlv = NULL;
 
 	if (sig == NULL || calcLevelCorrection == NULL) {
 		res = KSI_INVALID_ARGUMENT;
@@ -249,6 +251,40 @@ static int updateLevelCorrection(KSI_Signature *sig, KSI_uint64_t rootLevel,
 		KSI_pushError(sig->ctx, res, NULL);
 		goto cleanup;
 	}
+
+	/* The chain object may be shared (e.g. with the aggregation response the signature is built from):
+	 * the level correction is changed on a copy that belongs to this signature only. */
+	res = KSI_TLV_new(sig->ctx, 0x0801, 0, 0, &copyTlv);
+	if (res != KSI_OK) {
+		KSI_pushError(sig->ctx, res, NULL);
+		goto cleanup;
+	}
+
+	res = KSI_TlvTemplate_construct(sig->ctx, copyTlv, aggr, KSI_TLV_TEMPLATE(KSI_AggregationHashChain));
+	if (res != KSI_OK) {
+		KSI_pushError(sig->ctx, res, NULL);
+		goto cleanup;
+	}
+
+	res = KSI_AggregationHashChain_new(sig->ctx, &aggrCopy);
+	if (res != KSI_OK) {
+		KSI_pushError(sig->ctx, res, NULL);
+		goto cleanup;
+	}
+
+	res = KSI_TlvTemplate_extract(sig->ctx, aggrCopy, copyTlv, KSI_TLV_TEMPLATE(KSI_AggregationHashChain));
+	if (res != KSI_OK) {
+		KSI_pushError(sig->ctx, res, NULL);
+		goto cleanup;
+	}
+
+	res = KSI_AggregationHashChainList_replaceAt(sig->aggregationChainList, 0, aggrCopy);
+	if (res != KSI_OK) {
+		KSI_pushError(sig->ctx, res, NULL);
+		goto cleanup;
+	}
+	aggr = aggrCopy;
+	aggrCopy = NULL;
 
 	res = KSI_AggregationHashChain_getChain(aggr, &chain);
 	if (res != KSI_OK) {
@@ -358,7 +394,9 @@ static int updateLevelCorrection(KSI_Signature *sig, KSI_uint64_t rootLevel,
 cleanup:
 	KSI_Integer_free(newLvl);
 	KSI_TLV_free(newTlv);
+	KSI_TLV_free(copyTlv);
 	KSI_AggregationHashChain_free(aggrFromTlv);
+	KSI_AggregationHashChain_free(aggrCopy);
 
 	return res;
 }
